@@ -1,4 +1,9 @@
 FINDINGS = [
+    dict(id="C19-live-class-mapping-to-function-keyerror", property="C19",
+         pattern=dict(check="gen", clause="gen_raises", emit="function", exc="KeyError", input_as="module_symbol"),
+         what="gen --input-mapping module.SYMBOL (a dict of live classes) --emit function raises KeyError: 'type': the inspect-based class parser deletes the 'type' key that "
+              "function.emit reads (the AST-based class parser keeps 'type': 'static'); pinned by four in-memory parse tests, so not repaired",
+         site="cdd/shared/parse/utils/parser_utils.py:_inspect (del ir['type']) / cdd/function/emit.py:function", example="MAPPING = {'Alpha': Alpha} in an importable module; gen --input-mapping mod.MAPPING --parse infer --emit function"),
     dict(id="C19-argparse-drops-none-default", property="C19",
          pattern=dict(check="gen", clause="symbol_interface", field="default", expected="None", observed="ABSENT", typ_class="Optional"),
          what="a symbol generated as (or from) an argparse function loses the None default of an Optional parameter - the per-format loss recorded as C02 R-argparse-none-default, seen through gen",
